@@ -252,6 +252,18 @@ fn run(rng: &mut Rng, _idx: u64, tier: Tier) -> CaseOut {
         ("model_check_extended_formula_dirty", true, Box::new(|| mc::model_check_extended_formula_dirty(s, g, &ctx).map(|_| ()))),
         ("model_check_multiple_extended_formulae", true, Box::new(|| mc::model_check_multiple_extended_formulae(vec![s, s], g, &ctx).map(|_| ()))),
         ("model_check_multiple_extended_formulae_dirty", true, Box::new(|| mc::model_check_multiple_extended_formulae_dirty(vec![s], g, &ctx).map(|_| ()))),
+        // a batch whose LAST formula uses only another label (valid whenever that label has a set): the verdict for the batch is the verdict for `s`
+        (
+            "model_check_multiple_extended_formulae_dirty (mixed batch)",
+            true,
+            Box::new(|| {
+                if ctx.contains_key("unused") {
+                    mc::model_check_multiple_extended_formulae_dirty(vec![s, "(EF %unused%)"], g, &ctx).map(|_| ())
+                } else {
+                    mc::model_check_multiple_extended_formulae_dirty(vec!["True", s], g, &ctx).map(|_| ())
+                }
+            }),
+        ),
     ];
     for (name, extended, f) in &calls {
         let expected = if *extended { exp_ext } else { exp_plain };
